@@ -576,7 +576,7 @@ RULE_DOC["R22"] = rule_R22.__doc__.strip()
 def rule_R51(src, stats):
     """(consts directive, automatic) `const N: &str = ..;` -> `const N: &'static str = ..;`: the elided lifetime of a reference in a
     const item IS 'static in Rust; Verus turns consts into functions, where the elision is not accepted (E0106)"""
-    out = re.sub(r"(const\s+\w+\s*:\s*)&(\s*)str\b", r"\1&'static\2 str", src, count=1)
+    out = re.sub(r"((?:const|static)\s+\w+\s*:\s*)&(?!\s*')(\s*)", r"\1&'static \2", src, count=1)
     if out != src:
         stats["R51"] = stats.get("R51", 0) + 1
     return out
